@@ -495,6 +495,17 @@ func c11(c *Ctx) {
 				}
 			}
 			r.Check("AddTagsSetSource:"+T, okT && okS, fn.Pos(), "adds the instance tags and sets the source to the instance id")
+			// on every path: the source is set whatever the tags are (an instance without tags still has an id)
+			T2 := T
+			mS := countOnPaths(fn, func(in ssa.Instruction) bool {
+				st, ok := in.(*ssa.Store)
+				if !ok {
+					return false
+				}
+				t, f, _, ok := fieldRef(st.Addr)
+				return ok && t == T2 && f == "Source" && paramIndex(fn, st.Val) == 2
+			})
+			r.Check("AddTagsSetSource:"+T+":source-on-every-path", mS == 2, fn.Pos(), "Source = newSource on every path: "+maskString(mS))
 		}
 	})
 
@@ -530,6 +541,8 @@ func c11(c *Ctx) {
 			}
 		}
 		r.Check("lookup:sites", n == 2, token.NoPos, fmt.Sprintf("%d sites queue a lookup", n))
+		// every queued source is submitted exactly once: the element handed to the lookup is the element removed
+		pendingPopRule(r, w, P, "CloudHandler", "toLookupIPs")
 	})
 
 	c.Rule("C11.R5", "queue gauges move with the maps: hosts++ with each new map entry, hosts-- with each delete, items++ per parked event, items -= len on release", 8, func(r *Rule) {
@@ -1122,6 +1135,44 @@ func c19(c *Ctx) {
 				}
 			}
 		}
+		// title and text: the declared byte ranges of the line; in the text every escaped newline is restored
+		// (all occurrences, by the library routine - a hand-written in-place loop has to get its bounds right
+		// for an escape at the very end)
+		if leb := w.Func("internal/lexer", "lexEventBody"); leb != nil {
+			nText := 0
+			for _, st := range fieldStores(leb, "Event", "Text") {
+				nText++
+				okText, why := false, "Text is not string(bytes.Replace(<text bytes>, \"\\n\", \"\n\", -1))"
+				if cv, ok := st.Val.(*ssa.Convert); ok {
+					if rc, ok := cv.X.(*ssa.Call); ok && (isCall(rc, "bytes.Replace") || isCall(rc, "bytes.ReplaceAll")) {
+						a := rc.Call.Args
+						from, ok1 := byteSliceConst(w, a[1], 0)
+						to, ok2 := byteSliceConst(w, a[2], 0)
+						all := isCall(rc, "bytes.ReplaceAll")
+						if !all && len(a) == 4 {
+							if n, isC := constInt(a[3]); isC && n < 0 {
+								all = true
+							}
+						}
+						_, isSlice := a[0].(*ssa.Slice)
+						switch {
+						case !ok1 || !ok2 || from != "\\n" || to != "\n":
+							why = fmt.Sprintf("replaces %q by %q", from, to)
+						case !all:
+							why = "not every occurrence is replaced"
+						case !isSlice || !strings.Contains(pathOf(a[0]), "eventTextLen"):
+							why = "the bytes are not the declared text range: " + pathOf(a[0])
+						default:
+							okText, why = true, ""
+						}
+					}
+				}
+				r.Check("lexer:event-text-unescaped", okText, st.Pos(), "Event.Text is the declared text with every escaped newline restored "+why)
+			}
+			r.Check("lexer:event-text-site", nText == 1, leb.Pos(), fmt.Sprintf("%d stores of Event.Text in lexEventBody", nText))
+		} else {
+			r.Unresolved("lexer.lexEventBody")
+		}
 		hd := w.Func(P, "(*DatagramParser).handleDatagram")
 		if hd == nil {
 			r.Unresolved("handleDatagram")
@@ -1180,6 +1231,26 @@ func c19(c *Ctx) {
 	})
 
 	c.Rule("C19.R4", "tags and order: static tags applied before forwarding; cloud tags applied before forwarding; stage order parser -> cloud -> tags -> sink", 4, func(r *Rule) {
+		// what "cloud tags applied" means for an event: tags appended and the source set to the instance id, on every path
+		if fn := w.Func("", "(*Event).AddTagsSetSource"); fn != nil {
+			okT := false
+			for _, st := range fieldStores(fn, "Event", "Tags") {
+				if cl, ok := st.Val.(*ssa.Call); ok && isCall(cl, "(gostatsd.Tags).Concat") && paramIndex(fn, cl.Call.Args[1]) == 1 {
+					okT = true
+				}
+			}
+			mS := countOnPaths(fn, func(in ssa.Instruction) bool {
+				st, ok := in.(*ssa.Store)
+				if !ok {
+					return false
+				}
+				t, f, _, ok := fieldRef(st.Addr)
+				return ok && t == "Event" && f == "Source" && paramIndex(fn, st.Val) == 2
+			})
+			r.Check("Event.AddTagsSetSource", okT && mS == 2, fn.Pos(), "adds the instance tags and, on every path, sets the source to the instance id (an instance without tags still has an id): source stores over all paths = "+maskString(mS))
+		} else {
+			r.Unresolved("(*Event).AddTagsSetSource")
+		}
 		th := w.Func(P, "(*TagHandler).DispatchEvent")
 		if th != nil {
 			var st *ssa.Store
@@ -1292,6 +1363,60 @@ func pipelineImpls(w *World) []types.Type {
 }
 
 // cloudReleaseRule (C11.R3, C19.R5): a lookup result releases what is parked under each of the given queues.
+// pendingPopRule: where a pending-work slice <st>.<field> is shrunk by re-slicing to [:k] (or [k:]), every
+// element read from it in that step is the one at the removed position (index k for a pop from the end, 0
+// for a pop from the front); otherwise one element is handed on again and again while another is dropped
+// without ever being processed.
+func pendingPopRule(r *Rule, w *World, pkgRel, st, field string) {
+	n := 0
+	for _, fn := range pkgFuncs(w, pkgRel) {
+		for _, s := range fieldStores(fn, st, field) {
+			sl, ok := s.Val.(*ssa.Slice)
+			if !ok || !strings.HasSuffix(pathOf(sl.X), "."+field) {
+				continue
+			}
+			n++
+			var removed ssa.Value // index of the removed element
+			front := false
+			switch {
+			case sl.High != nil && sl.Low == nil:
+				removed = sl.High
+			case sl.Low != nil && sl.High == nil:
+				if k, isC := constInt(sl.Low); isC && k == 1 {
+					front = true
+				}
+			}
+			bad := ""
+			reads := 0
+			for _, in := range s.Block().Instrs {
+				ld, ok := in.(*ssa.UnOp)
+				if !ok || ld.Op != token.MUL {
+					continue
+				}
+				ia, ok := ld.X.(*ssa.IndexAddr)
+				if !ok || !strings.HasSuffix(pathOf(ia.X), "."+field) {
+					continue
+				}
+				reads++
+				switch {
+				case front:
+					if k, isC := constInt(ia.Index); !isC || k != 0 {
+						bad = "the slice is advanced by one from the front but element " + pathOf(ia.Index) + " is taken"
+					}
+				case removed != nil:
+					if ia.Index != removed && pathOf(ia.Index) != pathOf(removed) {
+						bad = "element " + pathOf(ia.Index) + " is taken but element " + pathOf(removed) + " is removed"
+					}
+				default:
+					bad = "unrecognised shrinking of the pending list"
+				}
+			}
+			r.Check("pending:"+fn.Name()+":takes-the-removed-element", bad == "" && reads >= 1, s.Pos(), "the pending source handed on is the one removed from "+field+" "+bad)
+		}
+	}
+	r.Check("pending:"+st+":pop-sites", n >= 1, token.NoPos, fmt.Sprintf("%d places shrink %s.%s", n, st, field))
+}
+
 func cloudReleaseRule(c *Ctx, r *Rule, hi *ssa.Function, fns map[string]*ssa.Function, fields ...string) {
 		pd := newPostDom(hi)
 		for _, kf := range fields {
